@@ -108,13 +108,28 @@ def check(ctx):
     else:
         ctx.bad("C13.4", "missing-anchor/ty_description", "", "ty_description not found")
     NAME = "description::type_name_with_type_params(P1,Transformer::types(P%d))"
-    expect_fn(ctx, "C13.4", "policy/recurse", "type_description::return_type_name", "then(Option::is_some(Path::ident(P1.path)),Ok(%s))" % (NAME % 2),
-              "met again while in progress: name iff the type has an ident, else continue", D)
-    expect_fn(ctx, "C13.4", "policy/cache-hit", "type_description::return_type_name_on_cache_hit", "Some(Ok(if(Option::is_some(Path::ident(P1.path))){%s}else{P2}))" % (NAME % 3),
-              "already described: name iff the type has an ident, else the cached text", D)
+    # the two policies are whatever is BOUND to the transformer's policy fields at the constructor call in type_description (nested fns or
+    # non-capturing closures written in place): found through the fn-pointer bindings, compared as terms
+    tdf = q.fn1(P, "description::type_description", D)
+    pol = {}
+    if tdf is not None:
+        _g, table = DR.graph(ctx, tdf["path"])
+        for b in table:
+            if b["in"] == tdf["path"]:
+                pol[b["field"].rsplit(".", 1)[-1]] = ctx.P.body(b["bound_to"])
+    for field, key, exp, why in (
+            ("recurse_policy", "policy/recurse", "then(Option::is_some(Path::ident(P1.path)),Ok(%s))" % (NAME % 2), "met again while in progress: name iff the type has an ident, else continue"),
+            ("cache_hit_policy", "policy/cache-hit", "Some(Ok(if(Option::is_some(Path::ident(P1.path))){%s}else{P2}))" % (NAME % 3), "already described: name iff the type has an ident, else the cached text")):
+        pf = pol.get(field)
+        if pf is None:
+            ctx.bad("C13.4", "missing-anchor/" + field, tdf["sp"] if tdf else "", "no function or non-capturing closure is bound to Transformer.%s in type_description" % field)
+            continue
+        ctx.mention(cshort(pf["path"]))
+        expect_term(ctx, "C13.4", key, pf["sp"], Norm(pf).term(pf["body"]), exp, why)
+    RES = "Transformer::resolve(Transformer::new(description::ty_description,%s,%s,(),P1),P0)" % (ANY, ANY)
     expect_fn(ctx, "C13.6", "format-flag", "description::type_description",
-              "if(P2){Ok(formatting::format_type_description(%s?))}else{%s}" % (("Transformer::resolve(Transformer::new(description::ty_description,type_description::return_type_name,type_description::return_type_name_on_cache_hit,(),P1),P0)",) * 2),
-              "result = resolve(id); the formatter is applied to it iff `format`", D)
+              "if(P2){Ok(formatting::format_type_description(%s?))}else{%s}" % (RES, RES),
+              "result = resolve(id) with the policies checked above; the formatter is applied to it iff `format`", D)
     # `the formatted description equals the unformatted one up to whitespace`: the formatter copies every character exactly once and
     # adds whitespace only (the instances of C15 that carry this clause, evaluated here for C13)
     from . import c15
